@@ -33,11 +33,12 @@ TMono  == IsEvent("Mono") /\ phase = "running"
 TPlan  == IsEvent("Plan") /\ (IF E("C02") => PlanOK(T) THEN TRUE ELSE Refused("")) /\ PlanSeen(T.levels)
 (* A line the contract refuses is REPORTED (with what Ref expects) and the trace goes on, so that  *)
 (* one pass examines every operation; the trace is accepted iff no line was refused.               *)
+TQCall == IsEvent("QCall") /\ (IF QCallOK(T) THEN TRUE ELSE Refused("")) /\ QCallEff(T)
 TCall  == IsEvent("Call") /\ (IF CallOK(T) THEN TRUE ELSE Refused("")) /\ CallEff(T)
 TResp  == IsEvent("Resp") /\ (IF RespOK(T) THEN TRUE ELSE Refused(ToJson(Norm(Ref(W, op))))) /\ RespondEff(T)
 TFault == IsEvent("Fault") /\ phase = "running" /\ faults' = faults \cup {T.kind} /\ UNCHANGED <<W, op, phase, levels, calls, mroots>>
 
-TraceNext == TWorld \/ TReq \/ TMono \/ TPlan \/ TCall \/ TResp \/ TFault
+TraceNext == TWorld \/ TReq \/ TMono \/ TPlan \/ TQCall \/ TCall \/ TResp \/ TFault
 TraceSpec == TraceInit /\ [][TraceNext]_tvars
 
 TraceAccepted ==
